@@ -387,6 +387,45 @@ def check_pad_snap(project: Project, rep):
                                                     f"(expected {bad})")
 
 
+def check_lincomb(project: Project, rep):
+    """AR-LC: a linear combination is Σ coeff·landscape through the landscape operators (so zero padding of missing
+    depths and the mismatch guards apply), or, when it works on raw value arrays, aligns depths by zero padding"""
+    fi = project.function("persim.landscapes.tools.lc_approx")
+    f = fi.node
+    locs = local_names(f)
+    uses_values = [n for n in ast.walk(f) if isinstance(n, ast.Attribute) and n.attr == "values"]
+    rets = [n for n in ast.walk(f) if isinstance(n, ast.Return) and n.value is not None]
+    if not uses_values:
+        ok = False
+        for r in rets:
+            v = r.value
+            # np.sum(np.array(coeffs) * np.array(pl))  /  sum(c * p for ...)
+            if isinstance(v, ast.Call) and project.resolve(fi.module, v.func, locs) in ("numpy.sum", "builtins.sum") and v.args:
+                prod = [x for x in ast.walk(v.args[0]) if isinstance(x, ast.BinOp) and isinstance(x.op, ast.Mult)]
+                if prod and any(isinstance(x, ast.Name) and x.id == "coeffs" for x in ast.walk(v.args[0])):
+                    ok = True
+        if ok:
+            rep.discharged("AR-LC", fi, rets[0], "linear combination = Σ coeff·landscape through the landscape operators (their zero "
+                                                 "padding and guards apply)")
+        else:
+            rep.unmodelled("AR-LC", fi, f, "form of the linear combination not recognised")
+        return
+    bad = [n for n in ast.walk(f) if isinstance(n, ast.Call) and (
+        project.resolve(fi.module, n.func, locs) in ("numpy.resize", "numpy.tile", "numpy.repeat")
+        or (isinstance(n.func, ast.Attribute) and n.func.attr in ("resize", "repeat")))]
+    if bad:
+        rep.refuted("AR-LC", fi, bad[0],
+                    f"`{ast.unparse(bad[0])[:80]}` brings a shallower landscape to the common depth by repeating its existing depths: "
+                    f"a missing depth must count as the zero function (linear combinations of landscapes with different numbers "
+                    f"of depths are wrong)")
+        return
+    pads = [n for n in ast.walk(f) if isinstance(n, ast.Call) and project.resolve(fi.module, n.func, locs) in ("numpy.pad", "numpy.zeros")]
+    if pads:
+        rep.discharged("AR-LC", fi, pads[0], "raw value arrays are aligned to a common depth with zeros")
+    else:
+        rep.unmodelled("AR-LC", fi, f, "linear combination works on raw value arrays; how depths are aligned was not recognised")
+
+
 def run(project: Project, rep, tier: str):
     rep.explain(
         "C09 (clauses decided): AR-EFFECT / AR-OWN from the inter-procedural effect/ownership analysis over 22 methods and 12 "
@@ -402,7 +441,8 @@ def run(project: Project, rep, tier: str):
     check_guards(project, rep)
     check_unary(project, rep)
     check_pad_snap(project, rep)
-    for rn, n in (("AR-EFFECT", 30), ("AR-OWN", 30), ("AR-LAZY", 4), ("AR-GUARD", 9), ("AR-UNARY", 11), ("AR-PAD", 5), ("AR-SNAP", 2)):
+    check_lincomb(project, rep)
+    for rn, n in (("AR-EFFECT", 30), ("AR-OWN", 30), ("AR-LAZY", 4), ("AR-GUARD", 9), ("AR-UNARY", 11), ("AR-PAD", 5), ("AR-SNAP", 2), ("AR-LC", 1)):
         rep.floor(rn, n)
     for t in ("numpy.pad", "numpy.interp", "itertools.zip_longest"):
         rep.trust(t)
